@@ -348,7 +348,10 @@ func checkC19(c *Check) {
 				}
 			}
 		})
-		c.Ob("R2", "ValidateDeploymentGroups rejects duplicate group names", vdg.Pos(), dup, "")
+		if dup {
+			c.Ob("R2", "ValidateDeploymentGroups rejects duplicate group names", vdg.Pos(), true, "")
+		}
+		// any other form of the test is judged (or declared not decided) by the unique-names rule below
 		// ValidateBasic of the message
 		c.Analysed(fnName(vb))
 		mv := l.constVal("x/deployment/types", "ManifestVersionLength").ExactString()
